@@ -181,6 +181,36 @@ def walker_rule(cx, fn, rule, base_addr, base_count, kind):
         ck.verdict(ok_ge, 'C10.c', key + ':progress', e.where(),
                    'every iteration moves at least one octet' if ok_ge else
                    'chunk length %s can be 0 (auxiliary buffer of size 0): the walk makes no progress and never terminates' % fmt(ln))
+    # completion: the walk is left with status SUCCESS only when nothing remains (covers the whole region), and a
+    # walk whose loop can never be entered covers nothing
+    SUCCESS = cx.enums.get('PERSISTENT_ACCESS_SUCCESS')
+    loops_seen = any(p.loops for p in ps)
+    if loops_seen and nit == 0:
+        ck.violation(rule, fn + ':walk:never-runs', where,
+                     'the chunk loop can never be entered (its condition is false for every size): no octet of [%s, +%s) is %s'
+                     % (fmt(base_addr), fmt(base_count), 'read' if kind == 'read' else 'written'))
+        return
+    ndone = 0
+    for p in ps:
+        if p.end != 'return' or not p.loops or [e for e in medium_calls(p) if e.inloop]:
+            continue
+        r = p.ret
+        acc = r if r is not None and r[0] == 'c' else (dict(r[2]).get('access') if r is not None and r[0] == 'struct' else None)
+        if acc != C(SUCCESS):
+            continue
+        ndone += 1
+        lmap = p.loops[-1][1]
+        rk = [k for k, (h, pre) in lmap.items() if pre is not None and strip_cast(pre) == base_count]
+        if len(rk) != 1:
+            continue
+        z = L(lmap[rk[0]][0])
+        okz = eng.entails(p, z) and eng.entails(p, -z)
+        ck.verdict(okz, rule, fn + ':walk:complete', where,
+                   'SUCCESS is reported only when the whole region has been walked (remaining == 0)' if okz else
+                   'the walk ends with SUCCESS under {%s} while octets may remain: the tail of [%s, +%s) is never %s'
+                   % ('; '.join(fmt(c) for c in p.cond_terms()[-2:]), fmt(base_addr), fmt(base_count), 'read' if kind == 'read' else 'written'))
+    if loops_seen and ndone == 0:
+        ck.violation(rule, fn + ':walk:complete', where, 'no path reports SUCCESS after walking the region')
     ck.floor(rule, fn + ' iterations', nit, 2)
 
 
@@ -235,6 +265,8 @@ def rule_region(cx):
             d = L(da) - L(ca) - L(csz)
             if not (d.is_const() and d.c == 0):
                 bad = "data.address' = %s but checksum.address' + checksum.size' = %s + %s" % (fmt(da), fmt(ca), fmt(csz))
+            if fn == 'persistent_place' and strip_cast(ca) != ('v', 'address'):
+                bad = "the instance is placed at checksum.address' = %s, not at the requested address: every later access lies outside the region the caller designated" % fmt(ca)
         ck.verdict(bad is None, 'C10.b', fn + ':layout', cx.where(fn),
                    'leaves data.address = checksum.address + checksum.size' if bad is None else bad)
 
@@ -289,6 +321,15 @@ def rule_width(cx, rule='C10.d', fns=('checksum_size', 'persistent_checksum', 'p
                     used = True
             if fn == 'checksum_size' and p.ret is not None and p.ret != C(w // 8):
                 bad = '%d-bit checksum reported as %s octets' % (w, fmt(p.ret))
+        if fn in ('persistent_store_checksum', 'persistent_fetch_checksum') and bad is None:
+            for p in ps:
+                w = width_of_path(p, cx)
+                mc = medium_calls(p)
+                if w is None:
+                    continue
+                if len(mc) != 1 or not any('sum%d' % w in fmt(a) for a in mc[0].args):
+                    bad = ('the %d-bit arm performs %d medium accesses with its checksum member (expected exactly one): the stored checksum is not %s'
+                           % (w, len([e for e in mc if any('sum%d' % w in fmt(a) for a in e.args)]), 'written' if 'store' in fn else 'read'))
         sites += 1
         if bad is None and not used and fn != 'checksum_size':
             bad = 'no arm uses a checksum member of its own width'
@@ -318,6 +359,9 @@ def rule_width(cx, rule='C10.d', fns=('checksum_size', 'persistent_checksum', 'p
             r = p.ret
             while r is not None and r[0] == 'cast':
                 r = r[2]
+            if r is not None and r[0] == 'cmp' and r[1] == '!=' and w is not None:
+                bad = 'the %d-bit arm returns %s: equal checksums are reported as a mismatch and different ones as a match' % (w, fmt(r))
+                continue
             if w is None or r is None or r[0] != 'cmp' or r[1] != '==':
                 broken = 'result %s is not an equality of the two checksum values' % (fmt(p.ret) if p.ret else None)
                 continue
